@@ -398,6 +398,21 @@ Definition hopen_existing (acc_mode : Z) (dds : list dd) (fend : Z) (diskver : Z
   if Z.eqb aid FAIL then upd_version f1 (f_vset f1) 0 (0, 0, 0)
   else let '(f2, _, _) := hendaccess f1 aid in upd_version f2 (f_vset f2) 0 diskver.
 
+(** Hopen of a path that is ALREADY open through this file record (refcount > 0), acc_mode <> DFACC_CREATE:
+    when writing is requested and the record does not allow it, the stream is reopened "rb+"; [stream_ok] says
+    whether the operating system grants that.  Only a successful reopen gives the shared record the write bit
+    (the update stands after the last failing exit of that block: hopen_failing_exits_after_upgrade = 0). *)
+Definition hopen_again (f : frec) (acc_mode : Z) (stream_ok : bool) : frec * Z * list dev :=
+  if negb (f_open f) then (f, FAIL, []) else
+  if nz (hopen_needs_upgrade acc_mode (f_access f)) then
+    let '(f1, _, w) := hisync f in
+    if stream_ok then
+      ({| f_open := true; f_access := Z.lor (f_access f1) hopen_upgrade_bits; f_cache := f_cache f1; f_dirty := f_dirty f1;
+          f_dds := f_dds f1; f_end := f_end f1; f_recs := f_recs f1; f_vrecs := f_vrecs f1; f_vset := false; f_vmod := f_vmod f1;
+          f_ver := f_ver f1; f_diskver := f_diskver f1; f_next := f_next f1 |}, 0, w)
+    else (f1, FAIL, w)
+  else (f, 0, []).
+
 (** HIupdate_version: Hputelement of the version element; the modified flag is cleared only on success; the result
     (FAIL / SUCCEED) is returned to Hclose *)
 Definition hiupdate_version (f : frec) : frec * Z * list dev :=
